@@ -1,16 +1,40 @@
 /-
   Property C04 — Equals decides exactly the advertised equivalence.
-  Statement file (proofs in JdProofs/EqualsList.lean).
+  Statement file (proofs in JdProofs/EqualsList.lean and JdProofs/EqualsSet.lean).
 
   `equals o a b` is the library's `a.Equals(b, options...)` (JdModel/Equals.lean);
-  `equivB o a b` is the advertised equivalence written without hashes (JdSpec/CanonEq.lean).
+  `equivB o a b` is the advertised equivalence written without hashes (JdSpec/CanonEq.lean): deep
+  structural equality, arrays as ordered lists / as sets (recursively) / as bags according to
+  `dispatchTag o`, numbers within `precOf o`.
 
-  LIST MODE (no SET / MULTISET / SetKeys option; Precision allowed): full strength — no hashes are
-  involved. SET / MULTISET / SetKeys: `Equals` compares 64-bit hash codes; the statement is partial
-  (`equals_set_partial` is NOT yet proved; what IS proved here are the counter-witnesses that make
-  the full statement false on the unchanged tree: known finding KF-C04-alias; the former KF-C04-negzero was repaired).
+  LIST MODE (no SET / MULTISET / SetKeys option; Precision allowed): FULL strength — no hashes are
+  involved: `equals_iff_equiv_list`, reflexive, symmetric.
+
+  SET / MULTISET / SetKeys (`dispatchTag o = .set` / `.mset`; SetKeys dispatches to `.set`): `Equals`
+  compares 64-bit FNV-1a hash codes of array nodes, and the full statement is FALSE on the code as
+  it is (counter-witness theorems at the end: known finding KF-C04-alias). What is proved is the
+  PARTIAL statement `equals_iff_equiv_set` / `equals_iff_equiv_multiset`: Equals IS the advertised
+  equivalence whenever, among the finitely many sub-terms of the two documents at hand, equal hash
+  codes occur only for equivalent nodes (`HashFaithful`: no collision, no pre-image alias). The
+  converse of that hypothesis is a theorem, not an assumption: equivalent nodes always have equal
+  hash codes (`equivalent_implies_equal_hash`). Reflexivity and symmetry in the set modes need no
+  hash hypothesis at all (comparison of hash codes is an equivalence relation whatever the hash).
+  Other hypotheses of the set-mode theorems, and why:
+    `a.setDoc` = `rawDoc` (every array a plain `jsonArray`: `Equals` looks at the Go dynamic type
+       of the receiver, the advertised equivalence does not, see `rawDoc_is_needed`) ∧ `wf` (unique
+       sorted keys, the model's stand-in for Go maps) ∧ `finiteNums` ∧ `noNegZero` (kept from before
+       the repair of D5b; now stronger than necessary);
+    `precOf o = 0`: hash codes ignore Precision (known finding KF-C05-precision);
+    `FloatEq0`: the one IEEE-754 law used (`|x - y| ≤ +0` only for `x = y`); `Float` is opaque to
+       the kernel. `FloatLaws`: reflexivity / symmetry of `|x - y| ≤ eps`.
+
+  For ALL options, unconditionally: two values of different JSON types are never Equal
+  (`different_kinds_never_equal`, about the two values compared). The set-mode aliases at the end of
+  the file are clashes one level DOWN: the differing members sit inside arrays that are compared by
+  hash code.
 -/
 import JdProofs.EqualsList
+import JdProofs.EqualsSet
 
 namespace Jd.Props.C04
 open Jd Jd.Spec
@@ -46,6 +70,69 @@ example : dispatchTag [] = .list ∧
     (Json.arr .raw [.num 0x3ff0000000000000, .obj [("a", .arr .raw [.str "x"])]]).listDoc = true ∧
     (Json.arr .raw [.num 0x3ff0000000000000, .obj [("a", .arr .raw [.str "x"])]]).wf = true := by
   decide
+
+/-! ## SET / SetKeys / MULTISET readings -/
+
+/-- SET / SetKeys reading (partial): outside hash aliases and collisions among the sub-terms at
+    hand, `Equals` is exactly the advertised equivalence (arrays as mathematical sets, recursively) -/
+theorem equals_iff_equiv_set (F : FloatEq0) (o : Opts) (hd : dispatchTag o = .set)
+    (hp : precOf o = 0) (a b : Json) (ha : a.setDoc = true) (hb : b.setDoc = true)
+    (hf : HashFaithful o (subterms a ++ subterms b)) : equals o a b = equivB o a b :=
+  equals_eq_equivB_set F o hd hp a b ha hb hf
+
+/-- MULTISET reading (partial): the same with arrays as bags -/
+theorem equals_iff_equiv_multiset (F : FloatEq0) (o : Opts) (hd : dispatchTag o = .mset)
+    (hp : precOf o = 0) (a b : Json) (ha : a.setDoc = true) (hb : b.setDoc = true)
+    (hf : HashFaithful o (subterms a ++ subterms b)) : equals o a b = equivB o a b :=
+  equals_eq_equivB_mset F o hd hp a b ha hb hf
+
+/-- the converse of `HashFaithful` needs no assumption: equivalent documents have equal hash codes
+    (the hash of a set / bag does not depend on order, nor — for sets — on multiplicity) -/
+theorem equivalent_implies_equal_hash (F : FloatEq0) (o : Opts)
+    (hm : dispatchTag o = .set ∨ dispatchTag o = .mset) (hp : precOf o = 0)
+    (a b : Json) (ha : a.setDoc = true) (hb : b.setDoc = true)
+    (h : equivB o a b = true) : hashCode o a = hashCode o b :=
+  equivB_hash F o hm hp a b ha hb h
+
+/-- reflexive in the set modes, without any hash hypothesis (finite numbers, eps ≥ 0) -/
+theorem equals_refl_set_modes (L : FloatLaws) (o : Opts)
+    (hm : dispatchTag o = .set ∨ dispatchTag o = .mset) (hp : nonnegBits (precOf o) = true)
+    (a : Json) (hr : a.rawDoc = true) (hw : a.wf = true) (hf : a.finiteNums = true) :
+    equals o a a = true :=
+  equals_refl_setmode L o hm hp a hr hw hf
+
+/-- symmetric in the set modes, without any hash hypothesis -/
+theorem equals_symm_set_modes (L : FloatLaws) (o : Opts)
+    (hm : dispatchTag o = .set ∨ dispatchTag o = .mset) (a b : Json)
+    (hra : a.rawDoc = true) (hrb : b.rawDoc = true) (hwa : a.wf = true) (hwb : b.wf = true) :
+    equals o a b = equals o b a :=
+  equals_symm_setmode L o hm a b hra hrb hwa hwb
+
+/-- the hypothesis `rawDoc` is needed: a `jsonList`-typed receiver is never Equal to a plain array
+    under SET although the two denote the same set -/
+theorem rawDoc_is_needed :
+    equals [.set] (.arr .list [.null]) (.arr .raw [.null]) = false ∧
+    equivB [.set] (.arr .list [.null]) (.arr .raw [.null]) = true :=
+  mixed_tags_differ
+
+/-- the hypothesis `wf` (sorted keys) is needed: the object hash follows the stored key order -/
+theorem wf_is_needed :
+    equivB [.set] (.obj [("a", .null), ("b", .void)]) (.obj [("b", .void), ("a", .null)]) = true ∧
+    hashCode [.set] (.obj [("a", .null), ("b", .void)])
+      ≠ hashCode [.set] (.obj [("b", .void), ("a", .null)]) :=
+  unsorted_object_hash_differs
+
+/-! Non-vacuity of the set-mode theorem: `["a", {"k":["b","a"]}]` and
+    `[{"k":["a","b","a"]}, "a", "a"]` (reordered, duplicated, nested) satisfy `setDoc` and
+    `HashFaithful` (all 14 × 14 pairs of sub-terms checked in the kernel), and are Equal under SET. -/
+
+example : setExA.setDoc = true ∧ setExB.setDoc = true ∧
+    HashFaithful [.set] (subterms setExA ++ subterms setExB) :=
+  ⟨ex_setDoc.1, ex_setDoc.2, ex_hashFaithful⟩
+
+example (F : FloatEq0) :
+    equals [.set] setExA setExB = equivB [.set] setExA setExB ∧ equals [.set] setExA setExB = true :=
+  ex_equals_eq_equivB F
 
 /-! ### Counter-witnesses in the set modes (the full statement is false there: known findings)
 
